@@ -687,3 +687,108 @@ func init() {
 	register("C01", Rule{"R01e", ruleCountIsNotAPosition})
 	register("C05", Rule{"R01e", ruleCountIsNotAPosition})
 }
+
+// R01f: every operation of Dict sees all values of a key.  Dict.m maps a key to one value or to a multipleValues set;
+// Enumerator, With, CallAll, Equal and Less treat the second case.  A method that takes a value out of the map
+// (Get, or the value side of a Range) and never considers multipleValues is blind to the members stored under keys
+// with several values; a Count that is the map's key count is short by the same members.  (Sibling cross-check: the
+// implementations of one interface over one field must agree on its cases.)
+func ruleDictSeesAllValues(p *Program, r *Report) {
+	r.Begin("R01f", "Dict operations see every value of a key: each method of rel.Dict that takes a value out of the dict map (Map.Get / MustGet, or the value of a Range entry) or returns the map's Count reaches — itself or through package-local callees — a type test for multipleValues; audited exception: Export (hands the raw map to the host)", 6)
+	defer r.End()
+	dict := p.NamedType("rel", "Dict")
+	if dict == nil {
+		r.Undecided("anchor", "rel.Dict not found", 0)
+		return
+	}
+	audited := map[string]string{"Export": "hands the raw map to the host program"}
+	handles := func(fn *ssa.Function) bool {
+		seen := map[*ssa.Function]bool{}
+		var walk func(f *ssa.Function, d int) bool
+		walk = func(f *ssa.Function, d int) bool {
+			if f == nil || f.Blocks == nil || seen[f] || d > 2 {
+				return false
+			}
+			seen[f] = true
+			found := false
+			ForEachInstr(f, func(ins ssa.Instruction) {
+				switch x := ins.(type) {
+				case *ssa.TypeAssert:
+					if strings.HasSuffix(x.AssertedType.String(), "rel.multipleValues") {
+						found = true
+					}
+				case *ssa.Call:
+					if g := x.Call.StaticCallee(); g != nil && g.Pkg == fn.Pkg && walk(g, d+1) {
+						found = true
+					}
+				case *ssa.MakeClosure:
+					if walk(x.Fn.(*ssa.Function), d+1) {
+						found = true
+					}
+				}
+			})
+			return found
+		}
+		return walk(fn, 0)
+	}
+	n := 0
+	for _, fn := range p.RepoFns {
+		if fn.Signature.Recv() == nil || fn.Parent() != nil || fn.Synthetic != "" {
+			continue
+		}
+		if nt, ok := Deref(fn.Signature.Recv().Type()).(*types.Named); !ok || nt.Obj() != dict.Obj() {
+			continue
+		}
+		reads := ""
+		ForEachInstr(fn, func(ins ssa.Instruction) {
+			c, ok := ins.(*ssa.Call)
+			if !ok {
+				return
+			}
+			g := c.Call.StaticCallee()
+			if g == nil || g.Signature.Recv() == nil {
+				return
+			}
+			rt := strings.ReplaceAll(Deref(g.Signature.Recv().Type()).String(), " ", "")
+			if !strings.Contains(rt, "arr-ai/frozen.Map") || !strings.HasSuffix(rt, "rel.Value,any]") {
+				return
+			}
+			switch baseName(g) {
+			case "Get", "MustGet", "GetElse", "GetElseFunc":
+				reads = "takes a value out of the map (" + baseName(g) + ")"
+			case "Value", "Entry":
+				reads = "reads the values of the map's entries"
+			case "Count":
+				// the key count as a result
+				for _, b := range fn.Blocks {
+					if ret, ok := b.Instrs[len(b.Instrs)-1].(*ssa.Return); ok {
+						for i := range ret.Results {
+							if DependsOn(RetVal(ret, i), func(x ssa.Value) bool { return x == ssa.Value(c) }) && reads == "" {
+								reads = "returns a result derived from the number of keys"
+							}
+						}
+					}
+				}
+			}
+		})
+		if reads == "" {
+			continue
+		}
+		n++
+		r.Fn(FnName(fn))
+		key := "all-values@" + FnName(fn)
+		if why, ok := audited[fn.Name()]; ok {
+			r.OK(key, "audited: "+why, fn.Pos())
+			continue
+		}
+		r.Check(handles(fn), key, "considers the multipleValues case", fmt.Sprintf("%s %s but never considers multipleValues: the members stored under a key with several values are invisible to it (`count` short, `<:` false for a member, `without` a no-op), while Enumerator, With and CallAll see them", FnName(fn), reads), fn.Pos())
+	}
+	if n < 3 {
+		r.Undecided("sites", fmt.Sprintf("only %d Dict methods read values out of the map", n), 0)
+	}
+}
+
+func init() {
+	register("C01", Rule{"R01f", ruleDictSeesAllValues})
+	register("C05", Rule{"R01f", ruleDictSeesAllValues})
+}
